@@ -4,42 +4,74 @@ _SHAPES_PER = 6 + 36 + 216           # per direction: non-periodic side 1..4 or 
 SPEC = {
     "property": "C13",
     "rule": "one case = one grid complex built through the public constructors of Bitmap_cubical_complex over "
-            "Bitmap_cubical_complex_base (unit plain) or Bitmap_cubical_complex_periodic_boundary_conditions_base (unit periodic, every "
-            "subset of periodic directions incl. none), from top-cell values or from vertex values. *_shapes configs enumerate EVERY shape "
-            "of dimension 1..3 with sides 1..4 (periodic sides 3..4) by case index (k mod #shapes) with random values; *_4d configs draw random "
-            "4-D shapes (mask = k mod 16, cells capped at 2600 quick / 4200 thorough); *_constant configs use constant values and sides up to "
-            "12/9/6/4. Values: 1..64 dyadic levels (heavy ties) with +inf with probability 0, 1/16, 1/6 or 1/2 (sometimes all +inf) and, in 1/6 of the cases, -inf with probability 1/12 or 1/4. "
+            "Bitmap_cubical_complex_base<T> (units plain, float) or Bitmap_cubical_complex_periodic_boundary_conditions_base<T> (units periodic, "
+            "float; every subset of periodic directions incl. none), T = double or float, from top-cell values or from vertex values. "
+            "*_shapes configs enumerate EVERY shape of dimension 1..3 with sides 1..4 (periodic sides 3..4) by case index (k mod #shapes) with "
+            "random values; *_4d configs draw random 4-D shapes (mask = k mod 16, cells capped at 2600 quick / 4200 thorough); *_5d configs: 5-D, "
+            "periodic sides 3, other sides 1..2 cells / 1..3 vertices, every one of the 32 periodic masks (k/2 mod 32) with both input conventions "
+            "(grids above 3000 cells: closed-form Betti numbers instead of the naive reduction); *_long configs: 1-D with 1000 cells/vertices, 2-D "
+            "40x25, 2-D with sides up to 40x24, 3-D with sides up to 9x7x5, random values on up to 4096 levels, every periodic mask; *_constant "
+            "configs use constant values and sides up to 12/9/6/4; *_file configs write random top-cell values (finite values, and `inf` as "
+            "documented; %.17g / %.6f / %e; last value followed by a newline or ending the file) to a temporary Perseus-style file and build "
+            "through the const char* constructor. Values: 1..64 dyadic levels (heavy ties) with +inf with probability 0, 1/16, 1/6 or 1/2 "
+            "(sometimes all +inf) and, in 1/6 of the cases, -inf with probability 1/12 or 1/4 (never in files). "
             "Compared for EVERY cell against cubical_model.h (coordinate tuples in the doubled grid): dimension; boundary as a multiset and "
             "coboundary as a set against the geometric (wrap-around) faces/cofaces; boundary/coboundary converse (library answers only); "
             "two distinct ends per edge; alternating signs along the enumeration compose to zero (dd=0); compute_incidence_between_cells is "
             "+-1, equals the documented formula and alternates along the enumerated boundary (the documented guarantee); value = min over top "
-            "cells containing the cell / max over its vertices; iteration order of top cells and vertices. Then filtration_simplex_range is a "
-            "permutation, non-decreasing and faces-first; Persistent_cohomology (persistence_dim_max=true) over p in {2,3,5}: positive-length "
+            "cells containing the cell / max over its vertices; get_top_dimensional_coface_of_a_cell (top-cell input) / get_vertex_of_a_cell "
+            "(vertex input) return an incident cell of the right dimension with the same value (any such cell); iteration order of top cells and "
+            "vertices (empty range of top cells when a vertex grid has a single vertex in some direction). Per grid ~40 NON-incident pairs (face "
+            "and coface swapped, other cells of the same line incl. the coordinate 0 of a periodic direction, face of a face, random cell; in one "
+            "case of 16 also (A, A), in a forked child) must make compute_incidence_between_cells throw std::logic_error as documented. The "
+            "documented build-by-hand route (base-class constructor from the sizes [+ directions], values written through "
+            "top_dimensional_cells_range / vertices_range, impose_lower_star_filtration[_from_vertices]) must give the same value on every cell. "
+            "A file-built complex must equal the model on every cell (the constructor first runs in a forked child so that a crash is reported "
+            "with the input class), then goes through the whole monitor. Then filtration_simplex_range is a "
+            "permutation, non-decreasing and faces-first; Persistent_cohomology (persistence_dim_max=true) over Z_2, Z_3 and one of Z_5 (1/2), "
+            "Z_7, Z_11 (1/4 each): positive-length "
             "diagram equals oracle/zp_reduce.h run on the model cells (model signs) listed in the validated order, and the essential classes "
             "per dimension equal C(k, j) of T^k x D^(d-k). non-trivial = dimension >= 2, >= 2 distinct input values and >= 2 positive-length "
-            "intervals (or, for *_constant, dimension >= 2 with >= 1 periodic direction); distinct by hash of the logged input.",
+            "intervals (or, for *_constant and Betti-only grids, dimension >= 2 with >= 1 periodic direction); distinct by hash of the logged input.",
     "assumptions": [
         "cell handles are bitmap positions: mixed-radix number of the doubled coordinates, first direction fastest (documented order of the "
         "input values; cross-checked through the public top-cell and vertex iterators)",
         "periodic sides have length >= 3 (property quantifier); NaN values are not generated",
         "persistence is compared as a diagram of values without zero-length intervals, not as a pairing of cells (Persistent_cohomology's H0 "
         "union-find applies the elder rule on values, so among tied cells another representative may be kept)",
-        "compute_incidence_between_cells is only called on incident pairs; its sign IS compared with the formula in its documentation, "
-        "while the boundary enumeration is only required to be a valid incidence function (no fixed convention)",
-        "the top-cell iterator is not exercised when a vertex-input grid has a single vertex in some direction (no top cells exist)",
-        "trusted: cubical_model.h, oracle/zp_reduce.h, libstdc++",
+        "the sign of compute_incidence_between_cells on incident pairs IS compared with the formula in its documentation, while the boundary "
+        "enumeration is only required to be a valid incidence function (no fixed convention); on non-incident pairs only the documented "
+        "std::logic_error is required",
+        "files contain only what the format documents: one value per line, finite values and `inf` (no -inf, no nan, no comments, exactly "
+        "as many values as top cells); malformed files are not generated",
+        "the build-by-hand route is exercised once on a fresh empty bitmap; re-imposing a filtration after changing values of an already "
+        "filtered complex is NOT exercised (documented: the code does not check that the values form a filtration), nor is the cached "
+        "filtration order after such a change (stale sorted_cells)",
+        "NOT exercised: grids with >= 2^32 cells (index arithmetic in `unsigned`), dimension 0 (empty sizes vector), skeleton_simplex_range, "
+        "put_data_to_bins, GUDHI_USE_TBB sort",
+        "float values are dyadic and small, hence exactly representable: no rounding is involved in any comparison",
+        "trusted: cubical_model.h, oracle/zp_reduce.h, libstdc++, fork()/waitpid, /proc/self/fd (fallback: a named file in /tmp)",
     ],
     "units": [
         {"name": "plain", "src": ["c13_plain.cpp"], "variant": "asan",
          "configs": {"plain_top_shapes": {"quick": _SHAPES_PLAIN * 6, "thorough": _SHAPES_PLAIN * 200},
                      "plain_vert_shapes": {"quick": _SHAPES_PLAIN * 6, "thorough": _SHAPES_PLAIN * 200},
                      "plain_top_4d": {"quick": 100, "thorough": 3000}, "plain_vert_4d": {"quick": 100, "thorough": 3000},
-                     "plain_constant": {"quick": 160, "thorough": 4000}}, "chunk": 10},
+                     "plain_5d": {"quick": 24, "thorough": 1000}, "plain_long": {"quick": 16, "thorough": 800},
+                     "plain_constant": {"quick": 160, "thorough": 4000},
+                     "plain_file": {"quick": 96, "thorough": 4000}}, "chunk": 8},
         {"name": "periodic", "src": ["c13_periodic.cpp"], "variant": "asan",
          "configs": {"per_top_shapes": {"quick": _SHAPES_PER * 4, "thorough": _SHAPES_PER * 200},
                      "per_vert_shapes": {"quick": _SHAPES_PER * 4, "thorough": _SHAPES_PER * 200},
                      "per_top_4d": {"quick": 480, "thorough": 7000}, "per_vert_4d": {"quick": 480, "thorough": 7000},
-                     "per_constant": {"quick": 320, "thorough": 8000}}, "chunk": 10},
+                     "per_5d": {"quick": 64, "thorough": 3200}, "per_long": {"quick": 64, "thorough": 1600},
+                     "per_constant": {"quick": 320, "thorough": 8000},
+                     "per_file": {"quick": 128, "thorough": 6000}, "per_file_inf": {"quick": 64, "thorough": 3000}}, "chunk": 8},
+        {"name": "float", "src": ["c13_float_plain.cpp", "c13_float_periodic.cpp"], "variant": "asan",
+         "configs": {"float_plain_shapes": {"quick": _SHAPES_PLAIN * 2, "thorough": _SHAPES_PLAIN * 40},
+                     "float_per_shapes": {"quick": _SHAPES_PER * 2, "thorough": _SHAPES_PER * 40},
+                     "float_plain_4d": {"quick": 16, "thorough": 600}, "float_per_4d": {"quick": 32, "thorough": 1600},
+                     "float_plain_file": {"quick": 48, "thorough": 1500}, "float_per_file": {"quick": 48, "thorough": 1500}}, "chunk": 8},
     ],
     "floors": {"quick": {}, "thorough": {}},
     "exhaustive": {"quick": False, "thorough": False},
@@ -47,14 +79,18 @@ SPEC = {
                        "values are sampled",
     "manifest": {
         "text": "Runtime monitor under ASan+UBSan: thousands of cubical grids (every shape with sides <= 4 in dimension <= 3 with every periodic "
-                "mask, random 4-D grids, both base classes, top-cell and vertex input, tied and infinite values) are built with the real "
-                "constructors; for every cell the dimension, boundary, coboundary, incidence numbers and filtration value are compared with an "
-                "independent coordinate-tuple model of the (periodic) grid, dd=0 is checked on the enumerated alternating signs, the filtration "
-                "range is checked to be total, monotone and faces-first, and Persistent_cohomology over Z_2, Z_3, Z_5 is compared with a naive "
+                "mask, random 4-D grids, 5-D grids with every periodic mask, sides up to 1000 with random values, both base classes, T = double "
+                "and float, top-cell and vertex input, tied and infinite values) are built with the real constructors (value vectors, "
+                "Perseus-style files, and by hand through the iterators + impose_lower_star_filtration*); for every cell the dimension, boundary, "
+                "coboundary, incidence numbers, filtration value and same-valued top coface / vertex are compared with an "
+                "independent coordinate-tuple model of the (periodic) grid, dd=0 is checked on the enumerated alternating signs, non-incident "
+                "pairs must raise the documented std::logic_error, the filtration "
+                "range is checked to be total, monotone and faces-first, and Persistent_cohomology over Z_2, Z_3 and Z_5/Z_7/Z_11 is compared with a naive "
                 "column reduction of the model complex and with the Betti numbers of T^k x D^(d-k). Held on what was observed, not a proof; "
                 "shapes are exhaustive up to side 4 in dimension <= 3, values are sampled.",
         "note": "trusted: harness/c13_cubical/cubical_model.h, harness/oracle/zp_reduce.h; handles are bitmap positions (cross-checked through "
-                "the public iterators); periodic sides >= 3; no NaN; diagrams compared, not cell pairings",
+                "the public iterators); periodic sides >= 3; no NaN; diagrams compared, not cell pairings; well-formed files only; < 2^32 cells; "
+                "dimension >= 1; no re-imposing after a change of values",
         "technique": "runtime monitoring: enumerated + randomized inputs, reference-model oracle on every cell and naive Z_p reduction, under "
                      "AddressSanitizer/UBSan",
     },
@@ -63,16 +99,29 @@ SPEC = {
 # coverage floors (about half of what a normal run measures)
 _q = SPEC["floors"]["quick"]
 _t = SPEC["floors"]["thorough"]
-for _d in (1, 2, 3, 4):
+for _d in (1, 2, 3, 4, 5):
     for _m in range(1 << _d):
         _name = "grid.d%d.m%s" % (_d, "".join("1" if (_m >> _i) & 1 else "0" for _i in range(_d)))
-        _q[_name] = 25          # every (dimension, periodic mask)
-        _t[_name] = 500
-_q.update({"grid.length1_side": 1000, "grid.single_vertex_side": 400, "grid.has_inf": 800, "grid.has_neg_inf": 250, "grid.has_ties": 2000,
-           "grid.input.top": 1100, "grid.input.vertices": 1100, "grid.class.plain": 650, "grid.class.periodic": 1600,
-           "cells.with_wrapped_face": 200000, "cells.with_wrapped_coface": 200000, "cmp.dd_zero": 500000, "cmp.incidence": 3000000,
-           "cmp.persistence.p2": 2000, "cmp.persistence.p3": 2000, "cmp.persistence.p5": 2000, "pairs.finite": 20000,
-           "pairs.dim2": 6000, "pairs.dim3": 1000, "betti.periodic_checked": 3500, "_distinct_nontrivial": 1600})
+        _q[_name] = 25 if _d < 5 else 1          # every (dimension, periodic mask)
+        _t[_name] = 500 if _d < 5 else 40
+_q.update({"grid.length1_side": 1200, "grid.single_vertex_side": 550, "grid.has_inf": 1100, "grid.has_neg_inf": 330, "grid.has_ties": 2700,
+           "grid.input.top": 1500, "grid.input.vertices": 1400, "grid.class.plain": 850, "grid.class.periodic": 2100,
+           "cells.with_wrapped_face": 270000, "cells.with_wrapped_coface": 270000, "cmp.dd_zero": 500000, "cmp.incidence": 3000000,
+           "cmp.persistence.p2": 2700, "cmp.persistence.p3": 2700, "cmp.persistence.p5": 1300, "cmp.persistence.prime_above_5": 1300,
+           "cmp.persistence.p7": 600, "cmp.persistence.p11": 600, "pairs.finite": 40000,
+           "pairs.dim2": 7000, "pairs.dim3": 1100, "pairs.dim4": 40, "betti.periodic_checked": 4800, "_distinct_nontrivial": 2000,
+           # input classes added after the audit
+           "grid.float": 400, "grid.d5.fifth_direction_periodic": 16, "grid.d5.fifth_direction_not_periodic": 28, "cells.dim5": 1500,
+           "grid.long_side_random_values": 110, "grid.side_ge_100_random_values": 10,
+           "file.built": 190, "file.no_final_newline": 80, "file.final_newline": 80, "file.has_inf": 70,
+           "handbuilt.top": 1400, "handbuilt.vertices": 1400, "cmp.handles.top_cells_empty_range": 550,
+           "cmp.representative.top_coface": 800000, "cmp.representative.vertex": 400000, "representative.across_the_wrap": 130000,
+           "probe.nonincident": 95000, "probe.nonincident.face_and_coface_swapped": 30000, "probe.nonincident.same_line_not_adjacent": 7500,
+           "probe.nonincident.same_line_same_dimension": 14000, "probe.nonincident.same_line_to_coordinate_0_of_periodic_direction": 2900,
+           "probe.nonincident.several_coordinates_differ": 40000, "probe.nonincident.same_cell_twice": 450})
 _t.update({"grid.length1_side": 30000, "grid.single_vertex_side": 12000, "grid.has_inf": 25000, "cells.with_wrapped_face": 5000000,
            "cmp.dd_zero": 10000000, "cmp.persistence.p3": 70000, "pairs.finite": 500000, "pairs.dim3": 20000,
-           "betti.periodic_checked": 100000, "_distinct_nontrivial": 50000})
+           "betti.periodic_checked": 100000, "_distinct_nontrivial": 50000,
+           "grid.float": 8000, "file.built": 8000, "file.no_final_newline": 3000, "file.has_inf": 2500, "handbuilt.vertices": 30000,
+           "grid.side_ge_100_random_values": 300, "probe.nonincident": 2000000, "probe.nonincident.same_cell_twice": 9000,
+           "cmp.persistence.prime_above_5": 30000})
